@@ -122,6 +122,10 @@ func (tps *TPS) ClassifyMsg(msgBytes []byte) (uint8, bool, error) {
 }
 
 func (tps *TPS) Init(parties []uint16, threshold int, sendMsg func(msg []byte, isBroadcast bool, to uint16)) {
+	// Messages may already be dispatched to OnMsg() while we initialize
+	tps.lock.Lock()
+	defer tps.lock.Unlock()
+
 	party2ID := make(map[uint16]int)
 	for i := 0; i < len(parties); i++ {
 		party2ID[parties[i]] = i + 1
@@ -219,6 +223,11 @@ func (tps *TPS) OnMsg(msgBytes []byte, from uint16, _ bool) {
 
 	if len(msgBytes) == 0 {
 		tps.Logger.Warnf("Got an empty message from %d", from)
+		return
+	}
+
+	if !tps.init {
+		tps.Logger.Warnf("Got a message from %d before being initialized", from)
 		return
 	}
 
